@@ -99,6 +99,12 @@ def extract():
     t['dheat'] = {'gex_algs': list(DHEat.gex_algs), 'alg_priority': list(DHEat.alg_priority),
                   'alg_modulus_sizes': {k: int(v) for k, v in DHEat.alg_modulus_sizes.items()},
                   'tested_algs': list(DHEat.tested_algs)}
+    try:
+        from ssh_audit.ssh1 import SSH1
+        # the names an SSH-1 public-key message's bit masks are spelled out with (auth bit 0 is never reported)
+        t['ssh1_names'] = {'ciphers': [str(x) for x in SSH1.CIPHERS], 'auths': [str(x) for x in SSH1.AUTHS[1:]]}
+    except Exception as e:
+        raise Machinery('cannot import the SSH-1 name tables: %r' % (e,))
     return t
 
 
